@@ -8,6 +8,21 @@
   Theorems about ICG.Model.Normalize (the model of normalize.py / graph_game.py), for every number of players
   and every ordered field (so ℚ — the driver's instance —, the dyadic rationals inside ℚ, and ℝ at once).
   Float rounding is outside these theorems (DESIGN 3.3); the float sub-stream of `corr_normalize` covers it.
+
+  The repaired `_normalize_icg` (commit "fix: do not scale an additive game by its rounding residue …") does not
+  divide when `np.isclose(surplus + Σ, Σ, rtol = 1e-9, atol = 0)`, i.e. (exact arithmetic) when
+  `|w(N)| ≤ rtol · |Σ_i v{i}|` (`Additive`).  `rtol` is a parameter of the model and of every theorem here.
+  Consequences, all proved below:
+    * outside the tolerance window — `w(N) = 0 ∨ rtol·|Σ_i v{i}| < w(N)` — the property holds as before
+      (`normalize_property`, `denormalize_normalize`); with `rtol = 0` the window is empty and the old
+      unconditional statements are corollaries (`normalize_property_exact`, `denormalize_normalize_exact`);
+    * inside the window — `0 < w(N) ≤ rtol·|Σ_i v{i}|` — the code deliberately returns the unscaled `w`
+      (`window_behaviour`): singletons 0, superadditive, values in `[0, w(N)] ⊆ [0, rtol·|Σ_i v{i}|]`, grand
+      coalition `w(N)`, which is 1 only when `w(N) = 1`; and `denormalize_game` with the returned information
+      `(w(N), singletons)` yields `v c + w c · (w(N) − 1)`, so it restores the game iff `w(N) = 1`
+      (`denormalize_window`, and a concrete failing instance with the code's own `rtol`): the round trip is
+      NOT exact inside the window.
+    * a graph game has zero singletons, so for its table the window is empty whatever `rtol` is.
 -/
 import ICG.Model.Normalize
 import ICG.Spec.Bounds
@@ -16,6 +31,7 @@ import Mathlib.Algebra.BigOperators.Ring.List
 import Mathlib.Algebra.Order.Ring.Rat
 import Mathlib.Algebra.Field.Rat
 import Mathlib.Tactic.NormNum
+import Mathlib.Tactic.Ring
 import Mathlib.Tactic.IntervalCases
 
 set_option linter.unusedSectionVars false
@@ -126,31 +142,18 @@ theorem subAll_spec {n : Nat} : ∀ (k : Nat) (t : Table α), k ≤ n → FullOn
         rw [this, sub_zero]
       rw [hlo2 c hc, hlo1 c hc, hsv, Finset.sum_range_succ, sub_sub]
 
-/-- **in-place = closed form.**  On a complete table `_normalize_icg` succeeds and leaves, in both bound
-    columns, `normVal`: `w c = v c − Σ_{i∈c} v{i}`, divided by `w(N)` unless that is exactly 0. -/
-theorem normalizeIcg_closed [DecidableEq α] {n : Nat} (t : Table α) (hf : FullOn n t) :
-    ∃ t', normalizeIcg t = .ok t' ∧ FullOn n t' ∧ ∀ c, c < 2 ^ n → t'.lo c = normVal n t.lo c := by
+/-- the whole subtraction phase of `_normalize_icg`, and the read of the grand coalition that follows it -/
+theorem subtraction_phase {n : Nat} (t : Table α) (hf : FullOn n t) :
+    ∃ t1, (List.range t.n).foldlM subSingleton t = .ok t1 ∧ FullOn n t1 ∧
+      (∀ c, c < 2 ^ n → t1.lo c = closedW t.lo c) ∧
+      t1.getValue (grand t1.n) = .ok (closedW t.lo (grand n)) := by
   obtain ⟨t1, h1, hf1, hlo1⟩ := subAll_spec n t (le_refl n) hf
   have hW : ∀ c, c < 2 ^ n → t1.lo c = closedW t.lo c := by
     intro c hc
     rw [hlo1 c hc, closedW_eq hc]; rfl
-  have hg : t1.getValue (grand t1.n) = .ok (closedW t.lo (grand n)) := by
-    have hlt := grand_lt n
-    simp [Table.getValue, Table.rows, hf1.n_eq, hlt, hf1.known _ hlt, hW _ hlt]
-  unfold normalizeIcg
-  rw [hf.n_eq, h1]
-  simp only [bind, Except.bind]
-  rw [hg]
-  by_cases hz : closedW t.lo (grand n) = 0
-  · refine ⟨t1, by simp [hz, pure, Except.pure], hf1, ?_⟩
-    intro c hc
-    simp [normVal, hz, hW c hc]
-  · refine ⟨divColumns t1 (closedW t.lo (grand n)), by simp [hz, pure, Except.pure], ⟨hf1.n_eq, hf1.known, ?_⟩, ?_⟩
-    · intro c hc
-      simp [divColumns, hf1.hi_eq c hc]
-    · intro c hc
-      have : c < t1.rows := by simp [Table.rows, hf1.n_eq, hc]
-      simp [divColumns, normVal, hz, hW c hc, this]
+  refine ⟨t1, by rw [hf.n_eq]; exact h1, hf1, hW, ?_⟩
+  have hlt := grand_lt n
+  simp [Table.getValue, Table.rows, hf1.n_eq, hlt, hf1.known _ hlt, hW _ hlt]
 
 /-- `_get_norminfo` on a complete table: `(w(N), the singleton values in player order)` -/
 theorem normInfo_closed {n : Nat} (t : Table α) (hf : FullOn n t) :
@@ -181,6 +184,71 @@ theorem normInfo_closed {n : Nat} (t : Table α) (hf : FullOn n t) :
   rw [closedW_eq (grand_lt n), bsum_grand, listSum_range_map]
 
 end inplace
+
+/-! ## 1b. the guard and the two branches (ordered field; the order is only used through `|·|` and `≤`) -/
+
+section guard
+variable {α : Type} [Field α] [LinearOrder α] [DecidableLE α] [DecidableEq α]
+
+/-- the additivity test of the repaired `_normalize_icg` in exact arithmetic:
+    `np.isclose(surplus + Σ, Σ, rtol, atol = 0)` is `|surplus| ≤ rtol · |Σ|`, with `surplus = w(N)` and
+    `Σ = Σ_{i<n} v{i}` (`ICG.Norm.isAdditive_iff`, `closedAdditive_iff`). -/
+def Additive (n : Nat) (rtol : α) (v : Nat → α) : Prop :=
+  |closedW v (grand n)| ≤ rtol * |∑ i ∈ range n, v (2 ^ i)|
+
+omit [DecidableEq α] in
+theorem closedAdditive_iff_Additive (n : Nat) (rtol : α) (v : Nat → α) :
+    closedAdditive n rtol v = true ↔ Additive n rtol v := closedAdditive_iff n rtol v
+
+/-- scaling branch of the closed form -/
+theorem normVal_of_scale {n : Nat} {rtol : α} {v : Nat → α} (hg : closedW v (grand n) ≠ 0)
+    (ha : ¬ Additive n rtol v) (c : Nat) : normVal n rtol v c = closedW v c / closedW v (grand n) := by
+  have : ¬ closedAdditive n rtol v = true := fun h => ha ((closedAdditive_iff_Additive n rtol v).mp h)
+  simp [normVal, hg, this]
+
+/-- no-scaling branch of the closed form -/
+theorem normVal_of_noscale {n : Nat} {rtol : α} {v : Nat → α}
+    (h : closedW v (grand n) = 0 ∨ Additive n rtol v) (c : Nat) : normVal n rtol v c = closedW v c := by
+  have : closedW v (grand n) = 0 ∨ closedAdditive n rtol v = true :=
+    h.imp id (closedAdditive_iff_Additive n rtol v).mpr
+  simp only [normVal, if_pos this]
+
+/-- **in-place = closed form.**  On a complete table the repaired `_normalize_icg` succeeds (`_get_norminfo`,
+    the loop and the final read never raise) and leaves, in both bound columns, `normVal`:
+    `w c = v c − Σ_{i∈c} v{i}`, divided by `w(N)` unless `w(N) = 0` or `|w(N)| ≤ rtol·|Σ_i v{i}|`. -/
+theorem normalizeIcg_closed {n : Nat} (rtol : α) (t : Table α) (hf : FullOn n t) :
+    ∃ t', normalizeIcg rtol t = .ok t' ∧ FullOn n t' ∧ ∀ c, c < 2 ^ n → t'.lo c = normVal n rtol t.lo c := by
+  obtain ⟨t1, h1, hf1, hW, hg⟩ := subtraction_phase t hf
+  unfold normalizeIcg
+  rw [normInfo_closed t hf]
+  simp only [bind, Except.bind]
+  rw [h1]
+  simp only [hg, isAdditive_closed]
+  by_cases hz : closedW t.lo (grand n) = 0 ∨ closedAdditive n rtol t.lo = true
+  · refine ⟨t1, by simp only [if_pos hz]; rfl, hf1, ?_⟩
+    intro c hc
+    simp only [normVal, if_pos hz, hW c hc]
+  · refine ⟨divColumns t1 (closedW t.lo (grand n)), by simp only [if_neg hz]; rfl,
+      ⟨hf1.n_eq, hf1.known, ?_⟩, ?_⟩
+    · intro c hc
+      simp [divColumns, hf1.hi_eq c hc]
+    · intro c hc
+      have : c < t1.rows := by simp [Table.rows, hf1.n_eq, hc]
+      simp [divColumns, normVal, if_neg hz, hW c hc, this]
+
+/-- the same, branch by branch: with `w = v − Σ singletons` the result is `w / w(N)` when `w(N) ≠ 0` and the game
+    is not additive up to `rtol`, and `w` itself otherwise. -/
+theorem normalizeIcg_cases {n : Nat} (rtol : α) (t : Table α) (hf : FullOn n t) :
+    ∃ t', normalizeIcg rtol t = .ok t' ∧ FullOn n t' ∧
+      (closedW t.lo (grand n) ≠ 0 → ¬ Additive n rtol t.lo →
+        ∀ c, c < 2 ^ n → t'.lo c = closedW t.lo c / closedW t.lo (grand n)) ∧
+      (closedW t.lo (grand n) = 0 ∨ Additive n rtol t.lo → ∀ c, c < 2 ^ n → t'.lo c = closedW t.lo c) := by
+  obtain ⟨t', hok, hf', hlo⟩ := normalizeIcg_closed rtol t hf
+  exact ⟨t', hok, hf',
+    fun hg ha c hc => by rw [hlo c hc, normVal_of_scale hg ha],
+    fun h c hc => by rw [hlo c hc, normVal_of_noscale h]⟩
+
+end guard
 
 /-! ## 2. the closed form has the properties C15 names (ordered field) -/
 
@@ -256,79 +324,182 @@ theorem additive_of_grand_zero (h : SA n v) (h0 : v 0 = 0) (hg : closedW v (gran
   rw [closedW_eq hc] at this
   exact sub_eq_zero.mp this
 
-variable [DecidableEq α]
+variable [DecidableLE α] [DecidableEq α] {rtol : α}
 
-theorem normVal_of_ne (hg : closedW v (grand n) ≠ 0) (c : Nat) :
-    normVal n v c = closedW v c / closedW v (grand n) := by
-  simp [normVal, hg]
+/-- in a superadditive game the surplus is non-negative, so the guard reads `w(N) ≤ rtol·|Σ|` -/
+theorem additive_iff_le (h : SA n v) (h0 : v 0 = 0) :
+    Additive n rtol v ↔ closedW v (grand n) ≤ rtol * |∑ i ∈ range n, v (2 ^ i)| := by
+  unfold Additive
+  rw [abs_of_nonneg (closedW_nonneg h h0 _ (grand_lt n))]
 
-theorem normVal_of_eq (hg : closedW v (grand n) = 0) (c : Nat) : normVal n v c = closedW v c := by
-  simp [normVal, hg]
+omit [IsStrictOrderedRing α] [DecidableLE α] [DecidableEq α] in
+/-- above the window the game is not additive up to `rtol` -/
+theorem not_additive_of_lt (hlt : rtol * |∑ i ∈ range n, v (2 ^ i)| < closedW v (grand n)) :
+    ¬ Additive n rtol v := fun ha => absurd (lt_of_lt_of_le hlt (le_abs_self _)) (not_lt.mpr ha)
 
-/-- every singleton 0 -/
-theorem normVal_singleton {i : Nat} (hi : i < n) : normVal n v (2 ^ i) = 0 := by
+omit [IsStrictOrderedRing α] in
+/-- outside the tolerance window the closed form is the exact normalisation … -/
+theorem normVal_out_of_window
+    (how : closedW v (grand n) = 0 ∨ rtol * |∑ i ∈ range n, v (2 ^ i)| < closedW v (grand n)) (c : Nat) :
+    (closedW v (grand n) = 0 → normVal n rtol v c = closedW v c) ∧
+    (closedW v (grand n) ≠ 0 → normVal n rtol v c = closedW v c / closedW v (grand n)) := by
+  refine ⟨fun hg => normVal_of_noscale (Or.inl hg) c, fun hg => ?_⟩
+  rcases how with hz | hlt
+  · exact absurd hz hg
+  · exact normVal_of_scale hg (not_additive_of_lt hlt) c
+
+theorem normVal_of_ne
+    (how : closedW v (grand n) = 0 ∨ rtol * |∑ i ∈ range n, v (2 ^ i)| < closedW v (grand n))
+    (hg : closedW v (grand n) ≠ 0) (c : Nat) :
+    normVal n rtol v c = closedW v c / closedW v (grand n) := (normVal_out_of_window how c).2 hg
+
+theorem normVal_of_eq (hg : closedW v (grand n) = 0) (c : Nat) : normVal n rtol v c = closedW v c :=
+  normVal_of_noscale (Or.inl hg) c
+
+/-- with `rtol = 0` the window is empty: the closed form is the exact normalisation of every game -/
+theorem normVal_exact (c : Nat) :
+    normVal n (0 : α) v c =
+      if closedW v (grand n) = 0 then closedW v c else closedW v c / closedW v (grand n) := by
+  have hA : Additive n (0 : α) v ↔ closedW v (grand n) = 0 := by
+    unfold Additive
+    rw [zero_mul, abs_nonpos_iff]
+  by_cases hg : closedW v (grand n) = 0
+  · rw [if_pos hg, normVal_of_noscale (Or.inl hg)]
+  · rw [if_neg hg, normVal_of_scale hg (fun ha => hg (hA.mp ha))]
+
+/-- every singleton 0 (whatever `rtol` is) -/
+theorem normVal_singleton {i : Nat} (hi : i < n) : normVal n rtol v (2 ^ i) = 0 := by
   unfold normVal
   split <;> simp [closedW_singleton hi v]
 
-/-- every value in [0, 1] -/
-theorem normVal_unit (h : SA n v) (h0 : v 0 = 0) {c : Nat} (hc : c < 2 ^ n) :
-    0 ≤ normVal n v c ∧ normVal n v c ≤ 1 := by
+theorem normVal_empty (h0 : v 0 = 0) : normVal n rtol v 0 = 0 := by
+  unfold normVal
+  split <;> simp [closedW_empty, h0]
+
+/-- non-negative (whatever `rtol` is) -/
+theorem normVal_nonneg (h : SA n v) (h0 : v 0 = 0) {c : Nat} (hc : c < 2 ^ n) : 0 ≤ normVal n rtol v c := by
+  unfold normVal
+  split
+  · exact closedW_nonneg h h0 c hc
+  · exact div_nonneg (closedW_nonneg h h0 c hc) (closedW_nonneg h h0 _ (grand_lt n))
+
+/-- superadditive again (whatever `rtol` is: the unscaled `w` is superadditive too) -/
+theorem normVal_SA (h : SA n v) (h0 : v 0 = 0) : SA n (normVal n rtol v) := by
+  intro a b ha hb hab
+  have hsa := closedW_SA h a b ha hb hab
+  unfold normVal
+  split
+  · exact hsa
+  · rw [← add_div]
+    exact div_le_div_of_nonneg_right hsa (closedW_nonneg h h0 _ (grand_lt n))
+
+/-- every value in [0, 1] — outside the tolerance window -/
+theorem normVal_unit (h : SA n v) (h0 : v 0 = 0)
+    (how : closedW v (grand n) = 0 ∨ rtol * |∑ i ∈ range n, v (2 ^ i)| < closedW v (grand n))
+    {c : Nat} (hc : c < 2 ^ n) :
+    0 ≤ normVal n rtol v c ∧ normVal n rtol v c ≤ 1 := by
+  refine ⟨normVal_nonneg h h0 hc, ?_⟩
   by_cases hg : closedW v (grand n) = 0
   · rw [normVal_of_eq hg, closedW_zero_of_grand_zero h h0 hg c hc]
-    exact ⟨le_refl _, zero_le_one⟩
+    exact zero_le_one
   · have hpos : 0 < closedW v (grand n) :=
       lt_of_le_of_ne (closedW_nonneg h h0 _ (grand_lt n)) (Ne.symm hg)
-    rw [normVal_of_ne hg]
-    exact ⟨div_nonneg (closedW_nonneg h h0 c hc) hpos.le,
-      (div_le_one hpos).mpr (closedW_le_grand h h0 hc)⟩
+    rw [normVal_of_ne how hg]
+    exact (div_le_one hpos).mpr (closedW_le_grand h h0 hc)
 
-/-- grand coalition 1 — or the game was additive and the result is identically 0 -/
-theorem normVal_grand (h : SA n v) (h0 : v 0 = 0) :
-    normVal n v (grand n) = 1 ∨
-      (closedW v (grand n) = 0 ∧ ∀ c, c < 2 ^ n → normVal n v c = 0) := by
+/-- grand coalition 1 — or the game was additive and the result is identically 0 — outside the window -/
+theorem normVal_grand (h : SA n v) (h0 : v 0 = 0)
+    (how : closedW v (grand n) = 0 ∨ rtol * |∑ i ∈ range n, v (2 ^ i)| < closedW v (grand n)) :
+    normVal n rtol v (grand n) = 1 ∨
+      (closedW v (grand n) = 0 ∧ ∀ c, c < 2 ^ n → normVal n rtol v c = 0) := by
   by_cases hg : closedW v (grand n) = 0
   · right
     exact ⟨hg, fun c hc => by rw [normVal_of_eq hg, closedW_zero_of_grand_zero h h0 hg c hc]⟩
   · left
-    rw [normVal_of_ne hg, div_self hg]
-
-/-- superadditive again -/
-theorem normVal_SA (h : SA n v) (h0 : v 0 = 0) : SA n (normVal n v) := by
-  intro a b ha hb hab
-  have hsa := closedW_SA h a b ha hb hab
-  by_cases hg : closedW v (grand n) = 0
-  · simpa [normVal_of_eq hg] using hsa
-  · have hpos : 0 < closedW v (grand n) :=
-      lt_of_le_of_ne (closedW_nonneg h h0 _ (grand_lt n)) (Ne.symm hg)
-    rw [normVal_of_ne hg, normVal_of_ne hg, normVal_of_ne hg, ← add_div]
-    exact div_le_div_of_nonneg_right hsa hpos.le
-
-theorem normVal_empty (h0 : v 0 = 0) : normVal n v 0 = 0 := by
-  unfold normVal
-  split <;> simp [closedW_empty, h0]
+    rw [normVal_of_ne how hg, div_self hg]
 
 /-- **C15, first sentence, about the code's own loop.**  For a complete table holding a superadditive game with
-    `v ∅ = 0`, `_normalize_icg` succeeds and the resulting (complete) table has every singleton 0, every value in
-    [0,1], grand coalition 1 — or is identically 0, which happens exactly in the additive case `w(N) = 0` — and is
-    superadditive again. -/
-theorem normalize_property (t : Table α) (hf : FullOn n t) (h : SA n t.lo) (h0 : t.lo 0 = 0) :
-    ∃ t', normalizeIcg t = .ok t' ∧ FullOn n t' ∧
+    `v ∅ = 0` that is NOT in the tolerance window of the repaired code — `w(N) = 0` (exactly additive) or
+    `rtol·|Σ_i v{i}| < w(N)` — `_normalize_icg` succeeds and the resulting (complete) table has every singleton 0,
+    every value in [0,1], grand coalition 1 — or is identically 0, which happens exactly in the additive case
+    `w(N) = 0` — and is superadditive again.
+
+    The hypothesis `how` cannot be dropped for `rtol > 0`: inside the window `0 < w(N) ≤ rtol·|Σ_i v{i}|` the
+    repaired code deliberately treats the surplus as a rounding residue and returns the unscaled `w`, whose
+    values lie in `[0, w(N)] ⊆ [0, rtol·|Σ_i v{i}|]` and whose grand value is `w(N)`, neither 1 (unless
+    `w(N) = 1` by accident) nor 0 — see `window_behaviour`.  No sign condition on `rtol` is needed. -/
+theorem normalize_property (rtol : α) (t : Table α) (hf : FullOn n t) (h : SA n t.lo) (h0 : t.lo 0 = 0)
+    (how : closedW t.lo (grand n) = 0 ∨
+      rtol * |∑ i ∈ range n, t.lo (2 ^ i)| < closedW t.lo (grand n)) :
+    ∃ t', normalizeIcg rtol t = .ok t' ∧ FullOn n t' ∧
       (∀ i, i < n → t'.lo (2 ^ i) = 0) ∧
       (∀ c, c < 2 ^ n → 0 ≤ t'.lo c ∧ t'.lo c ≤ 1) ∧
       (t'.lo (grand n) = 1 ∨ (closedW t.lo (grand n) = 0 ∧ ∀ c, c < 2 ^ n → t'.lo c = 0)) ∧
       SA n t'.lo := by
-  obtain ⟨t', hok, hf', hlo⟩ := normalizeIcg_closed t hf
+  obtain ⟨t', hok, hf', hlo⟩ := normalizeIcg_closed rtol t hf
   refine ⟨t', hok, hf', ?_, ?_, ?_, ?_⟩
   · intro i hi
     rw [hlo _ (two_pow_lt_two_pow hi)]; exact normVal_singleton hi
   · intro c hc
-    rw [hlo c hc]; exact normVal_unit h h0 hc
-  · rcases normVal_grand (n := n) h h0 with hg | ⟨hg, hz⟩
+    rw [hlo c hc]; exact normVal_unit h h0 how hc
+  · rcases normVal_grand (n := n) h h0 how with hg | ⟨hg, hz⟩
     · left; rw [hlo _ (grand_lt n)]; exact hg
     · right; exact ⟨hg, fun c hc => by rw [hlo c hc]; exact hz c hc⟩
   · intro a b ha hb hab
     rw [hlo a ha, hlo b hb, hlo _ (or_lt_two_pow ha hb)]
     exact normVal_SA h h0 a b ha hb hab
+
+/-- **the old, unconditional statement is the case `rtol = 0`** (empty window: `0·|Σ| < w(N)` or `w(N) = 0`
+    for every superadditive game). -/
+theorem normalize_property_exact (t : Table α) (hf : FullOn n t) (h : SA n t.lo) (h0 : t.lo 0 = 0) :
+    ∃ t', normalizeIcg (0 : α) t = .ok t' ∧ FullOn n t' ∧
+      (∀ i, i < n → t'.lo (2 ^ i) = 0) ∧
+      (∀ c, c < 2 ^ n → 0 ≤ t'.lo c ∧ t'.lo c ≤ 1) ∧
+      (t'.lo (grand n) = 1 ∨ (closedW t.lo (grand n) = 0 ∧ ∀ c, c < 2 ^ n → t'.lo c = 0)) ∧
+      SA n t'.lo := by
+  apply normalize_property (0 : α) t hf h h0
+  rcases (closedW_nonneg h h0 _ (grand_lt n)).lt_or_eq with hpos | hz
+  · right; rwa [zero_mul]
+  · left; exact hz.symm
+
+/-- **inside the tolerance window** `0 < w(N) ≤ rtol·|Σ_i v{i}|` the repaired `_normalize_icg` succeeds and leaves
+    the UNSCALED game `w = v − Σ singletons` in the table: every singleton 0, superadditive, every value in
+    `[0, w(N)]` and hence in `[0, rtol·|Σ_i v{i}|]` (a "rounding residue" relative to the singleton total), grand
+    coalition `w(N)`.  So of the property's clauses only "values ≤ 1" and "grand coalition 1 or identically 0"
+    can fail, and the latter holds iff `w(N) = 1`. -/
+theorem window_behaviour (rtol : α) (t : Table α) (hf : FullOn n t) (h : SA n t.lo) (h0 : t.lo 0 = 0)
+    (hpos : 0 < closedW t.lo (grand n))
+    (hwin : closedW t.lo (grand n) ≤ rtol * |∑ i ∈ range n, t.lo (2 ^ i)|) :
+    ∃ t', normalizeIcg rtol t = .ok t' ∧ FullOn n t' ∧
+      (∀ c, c < 2 ^ n → t'.lo c = closedW t.lo c) ∧
+      (∀ i, i < n → t'.lo (2 ^ i) = 0) ∧
+      (∀ c, c < 2 ^ n → 0 ≤ t'.lo c ∧ t'.lo c ≤ closedW t.lo (grand n) ∧
+        t'.lo c ≤ rtol * |∑ i ∈ range n, t.lo (2 ^ i)|) ∧
+      t'.lo (grand n) = closedW t.lo (grand n) ∧
+      ((t'.lo (grand n) = 1 ∨ ∀ c, c < 2 ^ n → t'.lo c = 0) ↔ closedW t.lo (grand n) = 1) ∧
+      SA n t'.lo := by
+  obtain ⟨t', hok, hf', hlo⟩ := normalizeIcg_closed rtol t hf
+  have hadd : Additive n rtol t.lo := (additive_iff_le h h0).mpr hwin
+  have hW : ∀ c, c < 2 ^ n → t'.lo c = closedW t.lo c := fun c hc => by
+    rw [hlo c hc, normVal_of_noscale (Or.inr hadd)]
+  have hgr : t'.lo (grand n) = closedW t.lo (grand n) := hW _ (grand_lt n)
+  refine ⟨t', hok, hf', hW, ?_, ?_, hgr, ?_, ?_⟩
+  · intro i hi
+    rw [hW _ (two_pow_lt_two_pow hi)]; exact closedW_singleton hi _
+  · intro c hc
+    rw [hW c hc]
+    exact ⟨closedW_nonneg h h0 c hc, closedW_le_grand h h0 hc, le_trans (closedW_le_grand h h0 hc) hwin⟩
+  · rw [hgr]
+    constructor
+    · rintro (h1 | hz)
+      · exact h1
+      · have := hz _ (grand_lt n)
+        rw [hgr] at this
+        exact absurd this hpos.ne'
+    · exact Or.inl
+  · intro a b ha hb hab
+    rw [hW a ha, hW b hb, hW _ (or_lt_two_pow ha hb)]
+    exact closedW_SA h a b ha hb hab
 
 end ordered
 
@@ -367,14 +538,38 @@ theorem listSum_map_mul {β} (l : List β) (f : β → α) (d : α) :
   rw [listSum_eq_sum, listSum_eq_sum]
   exact List.sum_map_mul_right ..
 
-variable [DecidableEq α]
+end graph
 
-/-- **graph form = tabulated form.**  The values of the normalised graph game are the closed-form
-    normalisation of its value table … -/
-theorem graphValue_normalizeGraph (g : GraphGame α) {c : Nat} (hc : c < 2 ^ g.n) :
-    graphValue (normalizeGraph g) c = normVal g.n (graphValue g) c := by
-  unfold normVal
-  rw [closedW_graphValue g (grand_lt g.n), closedW_graphValue g hc]
+section graphOrdered
+variable {α : Type} [Field α] [LinearOrder α] [IsStrictOrderedRing α] [DecidableLE α] [DecidableEq α]
+
+omit [DecidableLE α] [DecidableEq α] in
+/-- a graph game has zero singletons, so its tolerance window is empty whatever `rtol` is:
+    `|w(N)| ≤ rtol · |0|` iff `w(N) = 0` -/
+theorem additive_graph_iff (g : GraphGame α) (rtol : α) :
+    Additive g.n rtol (graphValue g) ↔ graphValue g (grand g.n) = 0 := by
+  unfold Additive
+  rw [closedW_graphValue g (grand_lt g.n)]
+  have : ∑ i ∈ range g.n, graphValue g (2 ^ i) = 0 :=
+    Finset.sum_eq_zero (fun i _ => graphValue_singleton g i)
+  rw [this, abs_zero, mul_zero, abs_nonpos_iff]
+
+/-- the closed form on the value table of a graph game does not depend on `rtol` -/
+theorem normVal_graph (g : GraphGame α) (rtol : α) {c : Nat} (hc : c < 2 ^ g.n) :
+    normVal g.n rtol (graphValue g) c =
+      if graphValue g (grand g.n) = 0 then graphValue g c else graphValue g c / graphValue g (grand g.n) := by
+  by_cases hz : graphValue g (grand g.n) = 0
+  · rw [if_pos hz, normVal_of_noscale (Or.inl (by rw [closedW_graphValue g (grand_lt g.n)]; exact hz)),
+      closedW_graphValue g hc]
+  · rw [if_neg hz, normVal_of_scale (by rw [closedW_graphValue g (grand_lt g.n)]; exact hz)
+        (fun ha => hz ((additive_graph_iff g rtol).mp ha)),
+      closedW_graphValue g hc, closedW_graphValue g (grand_lt g.n)]
+
+/-- **graph form = tabulated form.**  The values of the normalised graph game (`_normalize_graph_game` has no
+    tolerance guard) are the closed-form normalisation of its value table, for every `rtol` … -/
+theorem graphValue_normalizeGraph (rtol : α) (g : GraphGame α) {c : Nat} (hc : c < 2 ^ g.n) :
+    graphValue (normalizeGraph g) c = normVal g.n rtol (graphValue g) c := by
+  rw [normVal_graph g rtol hc]
   unfold normalizeGraph
   by_cases hz : graphValue g (grand g.n) = 0
   · simp [hz]
@@ -392,12 +587,17 @@ theorem graphValue_normalizeGraph (g : GraphGame α) {c : Nat} (hc : c < 2 ^ g.n
     rw [this, listSum_map_div]
     rfl
 
-/-- … which is what `_normalize_icg` leaves in the table holding the graph game's values. -/
-theorem graph_and_table_agree (g : GraphGame α) :
-    ∃ t', normalizeIcg (fullTable g.n (graphValue g)) = .ok t' ∧ FullOn g.n t' ∧
+/-- … which is what the repaired `_normalize_icg` leaves in the table holding the graph game's values. -/
+theorem graph_and_table_agree (rtol : α) (g : GraphGame α) :
+    ∃ t', normalizeIcg rtol (fullTable g.n (graphValue g)) = .ok t' ∧ FullOn g.n t' ∧
       ∀ c, c < 2 ^ g.n → t'.lo c = graphValue (normalizeGraph g) c := by
-  obtain ⟨t', hok, hf, hlo⟩ := normalizeIcg_closed _ (fullOn_fullTable g.n (graphValue g))
-  exact ⟨t', hok, hf, fun c hc => by rw [hlo c hc, graphValue_normalizeGraph g hc]; rfl⟩
+  obtain ⟨t', hok, hf, hlo⟩ := normalizeIcg_closed rtol _ (fullOn_fullTable g.n (graphValue g))
+  exact ⟨t', hok, hf, fun c hc => by rw [hlo c hc, graphValue_normalizeGraph rtol g hc]; rfl⟩
+
+end graphOrdered
+
+section graph
+variable {α : Type} [Field α]
 
 theorem normInfoGraph_eq (g : GraphGame α) :
     normInfoGraph g = (graphValue g (grand g.n), (List.range g.n).map (fun _ => (0 : α))) := by
@@ -484,29 +684,96 @@ theorem denormalize_spec {n : Nat} (t : Table α) (hf : FullOn n t) (g : α) (sv
 end denorm
 
 section roundtrip
-variable {α : Type} [Field α] [LinearOrder α] [IsStrictOrderedRing α] [DecidableEq α]
+variable {α : Type} [Field α] [LinearOrder α] [IsStrictOrderedRing α] [DecidableLE α] [DecidableEq α]
 
-/-- **de-normalising restores the game.**  `normalize_game` on a complete superadditive table succeeds and
-    returns `(info, normalised table)`; `denormalize_game` with that info succeeds and restores every value —
-    in the scaling branch (`w(N) ≠ 0`) and in the additive branch (`w(N) = 0`, where the stored grand value is 0
-    and `value·0 + Σ singletons` is the original value because the game is additive). -/
-theorem denormalize_normalize {n : Nat} (t : Table α) (hf : FullOn n t) (h : SA n t.lo) (h0 : t.lo 0 = 0) :
-    ∃ info t' t'', normalizeGame t = .ok (info, t') ∧ denormalize t' info = .ok t'' ∧ FullOn n t'' ∧
-      ∀ c, c < 2 ^ n → t''.lo c = t.lo c := by
-  obtain ⟨t', hok, hf', hlo⟩ := normalizeIcg_closed t hf
+omit [IsStrictOrderedRing α] in
+/-- `denormalize_game ∘ normalize_game` on a complete table, in closed form and for every `rtol`: both calls
+    succeed, the returned information is `(w(N), singleton values)`, and the restored value of `c` is
+    `normVal c · w(N) + Σ_{i∈c} v{i}`. -/
+theorem denormalize_normalize_closed {n : Nat} (rtol : α) (t : Table α) (hf : FullOn n t) :
+    ∃ t' t'', normalizeGame rtol t =
+        .ok ((closedW t.lo (grand n), (List.range n).map (fun i => t.lo (2 ^ i))), t') ∧
+      denormalize t' (closedW t.lo (grand n), (List.range n).map (fun i => t.lo (2 ^ i))) = .ok t'' ∧
+      FullOn n t'' ∧
+      ∀ c, c < 2 ^ n → t''.lo c =
+        normVal n rtol t.lo c * closedW t.lo (grand n) + bsum n (fun i => t.lo (2 ^ i)) c := by
+  obtain ⟨t', hok, hf', hlo⟩ := normalizeIcg_closed rtol t hf
   have hinfo := normInfo_closed t hf
   obtain ⟨t'', hden, hf'', hlo''⟩ := denormalize_spec t' hf' (closedW t.lo (grand n))
     ((List.range n).map (fun i => t.lo (2 ^ i))) (fun i => t.lo (2 ^ i))
     (by intro i hi; simp [hi])
-  refine ⟨_, t', t'', ?_, hden, hf'', ?_⟩
+  refine ⟨t', t'', ?_, hden, hf'', ?_⟩
   · unfold normalizeGame
-    rw [hinfo, hok]; rfl
+    rw [hinfo]
+    simp only [bind, Except.bind]
+    rw [hok]; rfl
   · intro c hc
     rw [hlo'' c hc, hlo c hc]
-    by_cases hg : closedW t.lo (grand n) = 0
-    · rw [normVal_of_eq hg, closedW_zero_of_grand_zero h h0 hg c hc, zero_mul, zero_add]
-      exact (additive_of_grand_zero h h0 hg c hc).symm
-    · rw [normVal_of_ne hg, div_mul_cancel₀ _ hg, closedW_eq hc, sub_add_cancel]
+
+/-- **de-normalising restores the game — outside the tolerance window.**  `normalize_game` on a complete
+    superadditive table with `w(N) = 0 ∨ rtol·|Σ_i v{i}| < w(N)` succeeds and returns `(info, normalised table)`;
+    `denormalize_game` with that info succeeds and restores every value — in the scaling branch (`w(N) ≠ 0`) and
+    in the exactly additive branch (`w(N) = 0`, where the stored grand value is 0 and `value·0 + Σ singletons` is
+    the original value because the game is additive).  Inside the window the statement is FALSE unless
+    `w(N) = 1`: see `denormalize_window` and the concrete instance `exWin` in section 5. -/
+theorem denormalize_normalize {n : Nat} (rtol : α) (t : Table α) (hf : FullOn n t) (h : SA n t.lo)
+    (h0 : t.lo 0 = 0)
+    (how : closedW t.lo (grand n) = 0 ∨
+      rtol * |∑ i ∈ range n, t.lo (2 ^ i)| < closedW t.lo (grand n)) :
+    ∃ info t' t'', normalizeGame rtol t = .ok (info, t') ∧ denormalize t' info = .ok t'' ∧ FullOn n t'' ∧
+      ∀ c, c < 2 ^ n → t''.lo c = t.lo c := by
+  obtain ⟨t', t'', hnorm, hden, hf'', hlo''⟩ := denormalize_normalize_closed rtol t hf
+  refine ⟨_, t', t'', hnorm, hden, hf'', ?_⟩
+  intro c hc
+  rw [hlo'' c hc]
+  by_cases hg : closedW t.lo (grand n) = 0
+  · rw [normVal_of_eq hg, closedW_zero_of_grand_zero h h0 hg c hc, zero_mul, zero_add]
+    exact (additive_of_grand_zero h h0 hg c hc).symm
+  · rw [normVal_of_ne how hg, div_mul_cancel₀ _ hg, closedW_eq hc, sub_add_cancel]
+
+/-- the old, unconditional round trip is the case `rtol = 0` -/
+theorem denormalize_normalize_exact {n : Nat} (t : Table α) (hf : FullOn n t) (h : SA n t.lo)
+    (h0 : t.lo 0 = 0) :
+    ∃ info t' t'', normalizeGame (0 : α) t = .ok (info, t') ∧ denormalize t' info = .ok t'' ∧ FullOn n t'' ∧
+      ∀ c, c < 2 ^ n → t''.lo c = t.lo c := by
+  apply denormalize_normalize (0 : α) t hf h h0
+  rcases (closedW_nonneg h h0 _ (grand_lt n)).lt_or_eq with hpos | hz
+  · right; rwa [zero_mul]
+  · left; exact hz.symm
+
+/-- **inside the tolerance window the round trip is not exact.**  With `0 < w(N) ≤ rtol·|Σ_i v{i}|` both calls
+    still succeed, but the table holds the unscaled `w` while the returned information still says "scaled by
+    `w(N)`", so `denormalize_game` produces `w c · w(N) + Σ_{i∈c} v{i} = v c + w c · (w(N) − 1)`.  The error at
+    `c` is `w c · (w(N) − 1)`, at most `w(N)·|w(N) − 1|` in absolute value, and the game is restored iff
+    `w(N) = 1`.  (For a float rounding residue `w(N) ≈ 1e-17` the error is far below rounding; for a game with
+    huge singletons and a genuine surplus `1 < w(N) ≤ 1e-9·|Σ|` it is not.) -/
+theorem denormalize_window {n : Nat} (rtol : α) (t : Table α) (hf : FullOn n t) (h : SA n t.lo)
+    (h0 : t.lo 0 = 0) (hpos : 0 < closedW t.lo (grand n))
+    (hwin : closedW t.lo (grand n) ≤ rtol * |∑ i ∈ range n, t.lo (2 ^ i)|) :
+    ∃ info t' t'', normalizeGame rtol t = .ok (info, t') ∧ denormalize t' info = .ok t'' ∧ FullOn n t'' ∧
+      (∀ c, c < 2 ^ n → t''.lo c = t.lo c + closedW t.lo c * (closedW t.lo (grand n) - 1)) ∧
+      (∀ c, c < 2 ^ n → |t''.lo c - t.lo c| ≤ closedW t.lo (grand n) * |closedW t.lo (grand n) - 1|) ∧
+      ((∀ c, c < 2 ^ n → t''.lo c = t.lo c) ↔ closedW t.lo (grand n) = 1) := by
+  obtain ⟨t', t'', hnorm, hden, hf'', hlo''⟩ := denormalize_normalize_closed rtol t hf
+  have hadd : Additive n rtol t.lo := (additive_iff_le h h0).mpr hwin
+  have hval : ∀ c, c < 2 ^ n → t''.lo c = t.lo c + closedW t.lo c * (closedW t.lo (grand n) - 1) := by
+    intro c hc
+    rw [hlo'' c hc, normVal_of_noscale (Or.inr hadd), closedW_eq hc]
+    ring
+  refine ⟨_, t', t'', hnorm, hden, hf'', hval, ?_, ?_⟩
+  · intro c hc
+    rw [hval c hc, add_sub_cancel_left, abs_mul, abs_of_nonneg (closedW_nonneg h h0 c hc)]
+    exact mul_le_mul_of_nonneg_right (closedW_le_grand h h0 hc) (abs_nonneg _)
+  · constructor
+    · intro hall
+      have := hall _ (grand_lt n)
+      rw [hval _ (grand_lt n)] at this
+      have hm : closedW t.lo (grand n) * (closedW t.lo (grand n) - 1) = 0 := by linarith
+      rcases mul_eq_zero.mp hm with hz | h1
+      · exact absurd hz hpos.ne'
+      · linarith
+    · intro h1 c hc
+      rw [hval c hc, h1, sub_self, mul_zero, add_zero]
 
 /-- the graph representation: `_denormalize_graph_game ∘ _normalize_graph_game` restores every value of a
     superadditive graph game -/
@@ -524,15 +791,14 @@ theorem graph_denormalize_normalize (g : GraphGame α) (h : SA g.n (graphValue g
   have e : ∀ (G : GraphGame α), graphValue G c = listSum ((pairs (players c)).map (fun p => G.m p.1 p.2)) :=
     fun _ => rfl
   rw [e (denormalizeGraph _ _), List.map_congr_left key, listSum_map_mul, ← e (normalizeGraph g)]
-  rw [graphValue_normalizeGraph g hc]
+  rw [graphValue_normalizeGraph (0 : α) g hc, normVal_graph g (0 : α) hc]
   have h0 : graphValue g 0 = 0 := by simp [graphValue, players, playersFrom, pairs, listSum]
-  by_cases hg : closedW (graphValue g) (grand g.n) = 0
-  · have hz := closedW_zero_of_grand_zero h h0 hg c hc
+  by_cases hg : graphValue g (grand g.n) = 0
+  · have hz := closedW_zero_of_grand_zero h h0
+      (by rw [closedW_graphValue g (grand_lt g.n)]; exact hg) c hc
     rw [closedW_graphValue g hc] at hz
-    rw [closedW_graphValue g (grand_lt g.n)] at hg
-    rw [hg, mul_zero, hz]
-  · rw [normVal_of_ne hg, closedW_graphValue g hc, closedW_graphValue g (grand_lt g.n)]
-    rw [closedW_graphValue g (grand_lt g.n)] at hg
+    rw [if_pos hg, hg, mul_zero, hz]
+  · rw [if_neg hg]
     exact div_mul_cancel₀ _ hg
 
 end roundtrip
@@ -559,43 +825,140 @@ theorem exAdd_SA : SA 2 exAdd := by
   have hb' : b < 4 := hb
   interval_cases a <;> interval_cases b <;> simp_all [exAdd] <;> norm_num
 
-/-- `normalize_property` and `denormalize_normalize` apply to it … -/
-example : ∃ t', normalizeIcg (fullTable 2 exV) = .ok t' ∧ FullOn 2 t' ∧ SA 2 t'.lo := by
+/-- a superadditive 2-player game inside the tolerance window of the code's own `rtol = 1e-9`:
+    singletons 2^40, surplus 2^10, `w(N)/|Σ| = 2^-31 ≈ 4.7e-10`: v = [0, 2^40, 2^40, 2^41 + 2^10] -/
+def exWin : Nat → ℚ := fun c =>
+  if c = 3 then 2199023256576 else if c = 2 then 1099511627776 else if c = 1 then 1099511627776 else 0
+
+theorem exWin_SA : SA 2 exWin := by
+  intro a b ha hb hab
+  have ha' : a < 4 := ha
+  have hb' : b < 4 := hb
+  interval_cases a <;> interval_cases b <;> simp_all [exWin] <;> norm_num
+
+theorem sum_range_two (f : Nat → ℚ) : ∑ i ∈ range 2, f (2 ^ i) = f 1 + f 2 := by
+  simp [Finset.sum_range_succ]
+
+theorem exV_surplus : closedW exV (grand 2) = 4 := by decide +kernel
+theorem exAdd_surplus : closedW exAdd (grand 2) = 0 := by decide +kernel
+theorem exWin_surplus : closedW exWin (grand 2) = 1024 := by decide +kernel
+
+/-- `exV` is outside the window of the code's `rtol` (4 > 1e-9 · 3), `exAdd` is exactly additive, -/
+theorem exV_out : closedW exV (grand 2) = 0 ∨
+    defaultRtol * |∑ i ∈ range 2, exV (2 ^ i)| < closedW exV (grand 2) := by
+  right
+  rw [exV_surplus, sum_range_two]
+  norm_num [exV, defaultRtol]
+
+theorem exAdd_out : closedW exAdd (grand 2) = 0 ∨
+    defaultRtol * |∑ i ∈ range 2, exAdd (2 ^ i)| < closedW exAdd (grand 2) := Or.inl exAdd_surplus
+
+/-- and `exWin` is inside it: 0 < 1024 ≤ 1e-9 · 2^41 ≈ 2199.02. -/
+theorem exWin_in : 0 < closedW exWin (grand 2) ∧
+    closedW exWin (grand 2) ≤ defaultRtol * |∑ i ∈ range 2, exWin (2 ^ i)| := by
+  rw [exWin_surplus, sum_range_two]
+  norm_num [exWin, defaultRtol]
+
+/-- `normalize_property` and `denormalize_normalize` apply to `exV` with the code's `rtol` … -/
+example : ∃ t', normalizeIcg defaultRtol (fullTable 2 exV) = .ok t' ∧ FullOn 2 t' ∧ SA 2 t'.lo := by
   obtain ⟨t', h1, h2, _, _, _, h6⟩ :=
-    normalize_property (fullTable 2 exV) (fullOn_fullTable 2 exV) exV_SA (by simp [fullTable, exV])
+    normalize_property defaultRtol (fullTable 2 exV) (fullOn_fullTable 2 exV) exV_SA (by simp [fullTable, exV])
+      exV_out
   exact ⟨t', h1, h2, h6⟩
 
-example : ∃ info t' t'', normalizeGame (fullTable 2 exV) = .ok (info, t') ∧ denormalize t' info = .ok t'' ∧
-    ∀ c, c < 2 ^ 2 → t''.lo c = exV c := by
+example : ∃ info t' t'', normalizeGame defaultRtol (fullTable 2 exV) = .ok (info, t') ∧
+    denormalize t' info = .ok t'' ∧ ∀ c, c < 2 ^ 2 → t''.lo c = exV c := by
   obtain ⟨info, t', t'', h1, h2, _, h4⟩ :=
-    denormalize_normalize (fullTable 2 exV) (fullOn_fullTable 2 exV) exV_SA (by simp [fullTable, exV])
+    denormalize_normalize defaultRtol (fullTable 2 exV) (fullOn_fullTable 2 exV) exV_SA
+      (by simp [fullTable, exV]) exV_out
   exact ⟨info, t', t'', h1, h2, h4⟩
 
+/-- … `window_behaviour` and `denormalize_window` apply to `exWin` (their hypotheses are satisfiable): the
+    grand coalition of the result is 1024, not 1, and the round trip does not restore the game, -/
+example : ∃ t', normalizeIcg defaultRtol (fullTable 2 exWin) = .ok t' ∧ t'.lo (grand 2) = 1024 ∧
+    ¬ (t'.lo (grand 2) = 1 ∨ ∀ c, c < 2 ^ 2 → t'.lo c = 0) := by
+  obtain ⟨t', h1, _, _, _, _, h6, h7, _⟩ :=
+    window_behaviour defaultRtol (fullTable 2 exWin) (fullOn_fullTable 2 exWin) exWin_SA
+      (by simp [fullTable, exWin]) exWin_in.1 exWin_in.2
+  refine ⟨t', h1, by rw [h6]; exact exWin_surplus, fun hh => ?_⟩
+  have := h7.mp hh
+  rw [show (fullTable 2 exWin).lo = exWin from rfl, exWin_surplus] at this
+  norm_num at this
+
+example : ∃ info t' t'', normalizeGame defaultRtol (fullTable 2 exWin) = .ok (info, t') ∧
+    denormalize t' info = .ok t'' ∧ ¬ ∀ c, c < 2 ^ 2 → t''.lo c = exWin c := by
+  obtain ⟨info, t', t'', h1, h2, _, _, _, h6⟩ :=
+    denormalize_window defaultRtol (fullTable 2 exWin) (fullOn_fullTable 2 exWin) exWin_SA
+      (by simp [fullTable, exWin]) exWin_in.1 exWin_in.2
+  refine ⟨info, t', t'', h1, h2, fun hh => ?_⟩
+  have := h6.mp hh
+  rw [show (fullTable 2 exWin).lo = exWin from rfl, exWin_surplus] at this
+  norm_num at this
+
 /-- … and the model, run by the kernel, gives [0, 0, 0, 1] with info (4, [1, 2]) (scaling branch), -/
-example : (match normalizeGame (fullTable 2 exV) with
+example : (match normalizeGame defaultRtol (fullTable 2 exV) with
     | .ok (info, t) => (info, (allCoalitions 2).map t.lo, (allCoalitions 2).map t.hi)
     | .error _ => ((0, []), [], [])) = ((4, [1, 2]), [0, 0, 0, 1], [0, 0, 0, 1]) := by decide +kernel
 
 /-- the additive branch: surplus 0, nothing is divided, the result is identically 0, -/
-example : (match normalizeGame (fullTable 2 exAdd) with
+example : (match normalizeGame defaultRtol (fullTable 2 exAdd) with
     | .ok (info, t) => (info, (allCoalitions 2).map t.lo)
     | .error _ => ((0, []), [])) = ((0, [-1, 2]), [0, 0, 0, 0]) := by decide +kernel
 
 /-- and de-normalising restores both games. -/
-example : (match normalizeGame (fullTable 2 exV) with
+example : (match normalizeGame defaultRtol (fullTable 2 exV) with
     | .ok (info, t) => (match denormalize t info with
         | .ok t' => (allCoalitions 2).map t'.lo
         | .error _ => [])
     | .error _ => []) = [0, 1, 2, 7] := by decide +kernel
 
-example : (match normalizeGame (fullTable 2 exAdd) with
+example : (match normalizeGame defaultRtol (fullTable 2 exAdd) with
     | .ok (info, t) => (match denormalize t info with
         | .ok t' => (allCoalitions 2).map t'.lo
         | .error _ => [])
     | .error _ => []) = [0, -1, 2, 1] := by decide +kernel
 
+/-- **the window, run by the kernel with the code's own `rtol = 1e-9`:** `exWin` is returned unscaled with
+    info (2^10, [2^40, 2^40]) … -/
+example : (match normalizeGame defaultRtol (fullTable 2 exWin) with
+    | .ok (info, t) => (info, (allCoalitions 2).map t.lo, (allCoalitions 2).map t.hi)
+    | .error _ => ((0, []), [], [])) =
+    ((1024, [1099511627776, 1099511627776]), [0, 0, 0, 1024], [0, 0, 0, 1024]) := by decide +kernel
+
+/-- … and `denormalize_game` with that info yields v(N) = 2^41 + 2^20, not the original 2^41 + 2^10:
+    **the round trip fails inside the window** (the real code does the same: 2199024304128.0). -/
+example : (match normalizeGame defaultRtol (fullTable 2 exWin) with
+    | .ok (info, t) => (match denormalize t info with
+        | .ok t' => (allCoalitions 2).map t'.lo
+        | .error _ => [])
+    | .error _ => []) = [0, 1099511627776, 1099511627776, 2199024304128] := by decide +kernel
+
+example : (2199024304128 : ℚ) ≠ exWin 3 := by decide +kernel
+
+/-- the same game with `rtol = 0` (no window) is scaled and restored exactly -/
+example : (match normalizeGame (0 : ℚ) (fullTable 2 exWin) with
+    | .ok (info, t) => (match denormalize t info with
+        | .ok t' => ((allCoalitions 2).map t.lo, (allCoalitions 2).map t'.lo)
+        | .error _ => ([], []))
+    | .error _ => ([], [])) = ([0, 0, 0, 1], [0, 1099511627776, 1099511627776, 2199023256576]) := by
+  decide +kernel
+
+/-- the driver's constant is the exact value of the float `1e-9` (`Fraction(1e-9)`): 4835703278458517 / 2^82,
+    and it lies within half an ulp of 10^-9 -/
+example : defaultRtol = 4835703278458517 / 2 ^ 82 := by decide +kernel
+example : |defaultRtol - 1 / 10 ^ 9| < 1 / 10 ^ 25 := by decide +kernel
+
+/-- the theorems specialise to the model exactly as the driver runs it: core `Rat` with the core instances
+    (`Rat.instMax = maxOfLe`, core `≤` and its decision procedure), not Mathlib's -/
+example (t : Table Rat) (hf : FullOn 2 t) :
+    ∃ t', @normalizeIcg Rat Rat.instAdd Rat.instSub Rat.instMul Rat.instDiv Rat.instNeg Rat.instMax ⟨0⟩ Rat.instLE
+        Rat.instDecidableLe instDecidableEqRat defaultRtol t = .ok t' ∧ FullOn 2 t' :=
+  let ⟨t', h, hf', _⟩ := normalizeIcg_closed defaultRtol t hf
+  ⟨t', h, hf'⟩
+
 /-- an incomplete table is rejected the way the code rejects it (ValueError of `get_value`) -/
-example : (match normalizeGame (Table.init (α := ℚ) 2) with | .ok _ => none | .error e => some e) = some Err.value := by
+example : (match normalizeGame defaultRtol (Table.init (α := ℚ) 2) with
+    | .ok _ => none | .error e => some e) = some Err.value := by
   decide +kernel
 
 /-- a graph game (weights 1, 2, 5 above the diagonal, junk below) and its table: same normalised values -/
@@ -604,7 +967,7 @@ def exG : GraphGame ℚ := GraphGame.ofMatrix 3 (fun r c => if r = 0 ∧ c = 1 t
 
 example : graphValues (normalizeGraph exG) = [0, 0, 0, 1/8, 0, 1/4, 5/8, 1] := by decide +kernel
 
-example : (match normalizeIcg (fullTable 3 (graphValue exG)) with
+example : (match normalizeIcg defaultRtol (fullTable 3 (graphValue exG)) with
     | .ok t => (allCoalitions 3).map t.lo
     | .error _ => []) = graphValues (normalizeGraph exG) := by decide +kernel
 
